@@ -560,7 +560,25 @@ pub fn api_compare(ctx: &Ctx, which: &str, o: &mut Outcome) {
             o.model_compared += 1;
             o.samples.push(format!("generated {} setters vs library setters on 17 setters x 7 arguments x 2 start configurations: {}", which, r[0]));
             if r[0] != "A same" {
-                o.model_diffs.push((Case { tcs: vec![format!("<{} api>", which)], cfg: Cfg::new(0) }, "A same".into(), r[0].clone()));
+                // a setter of this front end has another effect than the library's setter of the same name:
+                // that is the property failing on the generated semantics; the setter/argument is the replay
+                let names = ["with_conversion_of_digits", "with_conversion_of_non_digits", "with_conversion_of_whitespace",
+                    "with_conversion_of_non_whitespace", "with_conversion_of_words", "with_conversion_of_non_words",
+                    "with_conversion_of_repetitions", "with_case_insensitive_matching", "with_capturing_groups",
+                    "with_minimum_repetitions", "with_minimum_substring_length", "with_escaping_of_non_ascii_chars",
+                    "with_verbose_mode", "without_start_anchor", "without_end_anchor", "without_anchors", "with_syntax_highlighting"];
+                let args = ["()", "(true)", "(false)", "(0)", "(1)", "(2)", "(7)"];
+                let first = r[0].trim_start_matches("A ").split(';').next().unwrap_or("");
+                let f: Vec<&str> = first.splitn(3, ':').collect();
+                let what = if f.len() == 3 {
+                    let si: usize = f[0].parse().unwrap_or(0);
+                    let ai: usize = f[1].parse().unwrap_or(0);
+                    format!("{} front end: {}{} has the effect {} (config bits digit..color/min_rep/min_len; left = this front end, right = the library)",
+                        which, names.get(si).unwrap_or(&"?"), args.get(ai).unwrap_or(&"?"), f[2])
+                } else {
+                    format!("{} front end differs from the library: {}", which, r[0])
+                };
+                o.oracle_fails.push((Case { tcs: vec![format!("<{} api>", which)], cfg: Cfg::new(0) }, Fail::new(Kind::Differ, what, Some(first.to_string()))));
             }
         }
         Err(e) => o.notes.push(format!("driver: {}", e)),
